@@ -498,7 +498,7 @@ def search(run: Run):
 def main():
     run = Run(
         PID,
-        ["RV.Props.C16", "RV.Bridge.Maths"],
+        ["RV.Props.C16", "RV.Bridge.Maths", "RV.Bridge.MathsProps"],
         ["RV/Model/Angles.lean"],
         "Lean 4 theorems (floor/fmod algebra over the rationals with the code's own PI/TWOPI constants; matrix algebra for the "
         "permutation invariance of the update); differential correspondence of the scalar and vector helpers; metamorphic runs "
